@@ -203,6 +203,7 @@ NumValue(tok) ==
     [] tok = "3" -> <<"n", 3, 1>>  [] tok = "10" -> <<"n", 10, 1>> [] tok = "100" -> <<"n", 100, 1>>
     [] tok = "1.5" -> <<"n", 3, 2>> [] tok = "0.5" -> <<"n", 1, 2>> [] tok = "2.0" -> <<"n", 2, 1>>
     [] tok = "1e3" -> <<"n", 1000, 1>> [] tok = "250" -> <<"n", 250, 1>> [] tok = "7" -> <<"n", 7, 1>>
+    [] tok = "700" -> <<"n", 700, 1>> [] tok = "9" -> <<"n", 9, 1>> [] tok = "13" -> <<"n", 13, 1>> [] tok = "350" -> <<"n", 350, 1>>
     [] OTHER -> <<"x", tok>>
 
 ConstValue(tok) ==
